@@ -181,6 +181,8 @@ class SimSocket(_real_socket):
                 raise OSError(act[1], 'simulated accept error')
         fd, raw = self._accept()
         s = SimSocket(fileno=fd)
+        if NET.sndbuf:
+            _real_socket.setsockopt(s, _socket.SOL_SOCKET, _socket.SO_SNDBUF, NET.sndbuf)
         s.sim_local = self.sim_local
         s.sim_peer = NET.decode(raw) or ('10.255.255.1', 1)
         return s, s.sim_peer
